@@ -161,7 +161,7 @@ def h_controller(ctx, n):
   _finish(core, g)
 
 
-def h_switch(ctx, n, big=False):
+def h_switch(ctx, n, big=False, real_switch=False):
   core = env.get_core()
   iow = ctx.pox('pox.lib.ioworker')
   sw = ctx.pox('pox.datapaths.switch')
@@ -178,6 +178,11 @@ def h_switch(ctx, n, big=False):
     c = sw.OFConnection(w)
     c.set_message_handler(lambda con, msg, i=i: got[i].append((msg.header_type, _repack(msg))))
     conns.append(c)
+  if real_switch:
+    # connection A belongs to a real SoftwareSwitch: its handlers run on whatever decodes (and raise for what a switch does not accept -
+    # the ERR_EXCEPTION path of OFConnection.read)
+    the_switch = sw.SoftwareSwitch(dpid=5, ports=2, max_buffers=0)
+    the_switch.set_connection(conns[0])
   conns[0].unpackers = Counting(conns[0].unpackers, 2 * (n // 4 + 2), flag)
   # the read loop may also spin without ever dispatching: budget on looks at the receive buffer
   real_peek = workers[0].peek; peeks = [0]
@@ -189,8 +194,8 @@ def h_switch(ctx, n, big=False):
   workers[0].peek = peek
   sel = next(g)
   if big:
-    # one maximal message: version 1, type in {10,13,14,16,99,200}, symbolic xid, declared length 0xffe0..0xffff, 65535 bytes buffered (body zeros)
-    data = env.tobytes(ctx, [1, [10, 13, 14, 16, 99, 200][int(ctx.int('typeidx', 0, 5))], 0xff, ctx.int('lenlow', 0xe0, 255)] + list(ctx.bytes('xid', 4)) + [0] * (n - 8))
+    # one maximal message: version 1, type in {10,13,14,16,99,200,1,2,3,4} (the last four decode at any length: error, echo request/reply, vendor - their handlers may raise or reply at full size), symbolic xid, declared length 0xffe0..0xffff, 65535 bytes buffered (body zeros)
+    data = env.tobytes(ctx, [1, [10, 13, 14, 16, 99, 200, 1, 2, 3, 4][int(ctx.int('typeidx', 0, 9))], 0xff, ctx.int('lenlow', 0xe0, 255)] + list(ctx.bytes('xid', 4)) + [0] * (n - 8))
   else:
     data = ctx.bytes('data', n)
   b1 = echo_bytes(0x11111111, b'ab'); b2 = echo_bytes(0x22222222)
@@ -236,6 +241,6 @@ def obligations(tier):
   return [
     Obligation('O1_controller', h_controller, [dict(n=k) for k in ns_c], witnesses=('kept-open', 'closed'), max_decisions=20000, conc_cap=300,
                desc='controller I/O loop: N unconstrained bytes on one connection; termination, containment, sibling delivery'),
-    Obligation('O2_switch', h_switch, [dict(n=k) for k in ns_s] + [dict(n=65535, big=True)], witnesses=('kept-open', 'closed'), max_decisions=20000,
+    Obligation('O2_switch', h_switch, [dict(n=k) for k in ns_s] + [dict(n=k, real_switch=True) for k in (8, 12)] + [dict(n=65535, big=True), dict(n=65535, big=True, real_switch=True)], witnesses=('kept-open', 'closed'), max_decisions=20000,
                desc='switch I/O loop + OFConnection.read: N unconstrained bytes; termination, containment, sibling delivery, no stuck frame'),
   ]
